@@ -502,6 +502,15 @@ impl Family for HostileFamily {
                 c.frames[fi].msgs.truncate(1);
                 out.push(c);
             }
+            if f.repeat > 1 {
+                for r in [1, f.repeat / 2, f.repeat * 3 / 4] {
+                    if r < f.repeat {
+                        let mut c = sc.clone();
+                        c.frames[fi].repeat = r;
+                        out.push(c);
+                    }
+                }
+            }
         }
         out.into_iter().map(|s| serde_json::to_value(s).unwrap()).collect()
     }
